@@ -444,4 +444,9 @@ def parseLine (cs : List Char) : Option (Option (List Item) × List Char) :=
 def parseScript (cs : List Char) : Option (List (List Item)) :=
   parseLines (parseCommand (cs.length + 2)) (cs.length + 2) cs
 
+/-- `parseScript` with `k` times the nesting budget and the line budget (`parseScript = parseScriptWith 1`);
+    the driver checks on every `L` case that doubling both changes nothing (no budget ran out) -/
+def parseScriptWith (k : Nat) (cs : List Char) : Option (List (List Item)) :=
+  parseLines (parseCommand (k * (cs.length + 2))) (k * (cs.length + 2)) cs
+
 end YashModel.Syntax
